@@ -213,7 +213,18 @@ fn aim_gc(seed: u64, policy: &str) -> Script {
         live.fill_to(busy, gap, true);
         let last = live.last_position(busy).unwrap_or(0);
         live.push(Step::Truncate { q: busy, p: last });
-        if live.rng.chance(60) {
+        if live.rng.chance(50) {
+            // a second pass right behind the first, while the writer is still in the file the first
+            // pass rolled into: the file the first pass kept (it was being written) is vacated now,
+            // and with it the head of any position entry that straddled the file boundary
+            let payload = live.payload(3);
+            live.push(Step::Append { q: busy, pos: None, batch: vec![payload] });
+            let last = live.last_position(busy).unwrap_or(0);
+            live.push(Step::Truncate { q: busy, p: last });
+            if live.rng.chance(50) {
+                live.push(Step::Restart);
+            }
+        } else if live.rng.chance(60) {
             live.push(Step::Restart);
         }
         for q in 0..=idle {
